@@ -144,6 +144,7 @@ func (d *driver) runPurityProgram(w emitter, pid int, line []byte) {
 	for k, o := range p.Ops {
 		e := ev{"ev": "fp", "prog": pid, "k": k, "op": o.Op}
 		unchanged := true
+		afterOK, afterSet := false, false
 		func() {
 			defer func() {
 				if r := recover(); r != nil {
@@ -304,6 +305,68 @@ func (d *driver) runPurityProgram(w emitter, pid int, line []byte) {
 				_ = cfg.PrecomputedWeights.DivideOnDomain(uint8(o.A%256), f)
 				_ = cfg.PrecomputedWeights.ComputeBarycentricCoefficients(frFromBig(big.NewInt(int64(300 + o.A))))
 				unchanged = eqFr(f, fb)
+			case "failing":
+				// calls that FAIL (rejections and error returns), one of several kinds: whatever a failing call leaves behind must not
+				// influence later calls (the probe and the fingerprints that follow decide)
+				f := polyClass("small", o.A, rnd)
+				cm := cfg.Commit(f)
+				z := uint8(o.A % 256)
+				tr := common.NewTranscript("purity-fail")
+				pf, err := multiproof.CreateMultiProof(tr, cfg, []*banderwagon.Element{&cm, &cm}, [][]fr.Element{f, f}, []uint8{z, z})
+				if err != nil {
+					break
+				}
+				one := fr.One()
+				for kind := 0; kind < 7; kind++ {
+					y, y2 := f[z], f[z]
+					cs := []*banderwagon.Element{&cm, &cm}
+					ys := []*fr.Element{&y, &y2}
+					zs := []uint8{z, z}
+					bad := cloneProof(pf)
+					switch (kind + o.A) % 7 {
+					case 0: // wrong claimed value: rejected
+						y2.Add(&y2, &one)
+					case 1: // seven L points: error from the IPA layer
+						bad.IPA.L = bad.IPA.L[:7]
+					case 2: // seven R points
+						bad.IPA.R = bad.IPA.R[:7]
+					case 3: // length mismatch: error before anything is computed
+						ys = ys[:1]
+					case 4: // no openings
+						cs, ys, zs = nil, nil, nil
+					case 5: // wrong final scalar
+						bad.IPA.A_scalar.Add(&bad.IPA.A_scalar, &one)
+					case 6: // both lists empty
+						bad.IPA.L, bad.IPA.R = nil, nil
+					}
+					func() {
+						defer func() { recover() }()
+						multiproof.CheckMultiProof(common.NewTranscript("purity-fail"), cfg, bad, cs, ys, zs)
+					}()
+				}
+				// the honest statement right after the failing calls
+				{
+					y, y2 := f[z], f[z]
+					ok, verr := multiproof.CheckMultiProof(common.NewTranscript("purity-fail"), cfg, pf, []*banderwagon.Element{&cm, &cm}, []*fr.Element{&y, &y2}, []uint8{z, z})
+					afterOK = ok && verr == nil
+					afterSet = true
+				}
+				// failing IPA verification, failing decodes, failing proof reads
+				func() {
+					defer func() { recover() }()
+					ip, e2 := ipa.CreateIPAProof(common.NewTranscript("pf"), cfg, cm, f, frFromBig(big.NewInt(int64(300+o.A))))
+					if e2 == nil {
+						ip.L = ip.L[:6]
+						ipa.CheckIPAProof(common.NewTranscript("pf"), cfg, cm, ip, frFromBig(big.NewInt(int64(300+o.A))), one)
+					}
+					var el banderwagon.Element
+					el.SetBytes(make([]byte, 31))
+					el.SetBytes(bytes.Repeat([]byte{0xff}, 32))
+					var mp multiproof.MultiProof
+					mp.Read(bytes.NewReader(make([]byte, 100)))
+					var sc fr.Element
+					sc.SetBytesLECanonical(bytes.Repeat([]byte{0xff}, 32))
+				}()
 			case "precomp":
 				// a precomputed point over an element of the shared SRS (passed by value), every window size the constructor accepts
 				P := cfg.SRS[o.A%256]
@@ -342,6 +405,9 @@ func (d *driver) runPurityProgram(w emitter, pid int, line []byte) {
 			}
 		}()
 		e["inputs_unchanged"] = unchanged
+		if afterSet {
+			e["after_ok"] = afterOK
+		}
 		e["cfg"] = fpConfig(cfg)
 		e["pkg"] = fpPackage()
 		if o.Op == "probe" {
